@@ -142,7 +142,7 @@ impl StateCheck for C14 {
 
 pub fn run(ctx: &Ctx) -> i32 {
     let shared = Shared::new("C14", ctx);
-    flow_models(ctx, &shared, C14, FlowSpec { quick_depth: 3, thorough_depth: 4, extra: vec![], deep: true, seeded: true, t3: true, valuesets: false });
+    flow_models(ctx, &shared, C14, FlowSpec { quick_depth: 3, thorough_depth: 4, extra: vec![], deep: true, heavy_oracle: false, seeded: true, t3: true, valuesets: false });
     finish(
         ctx,
         &shared,
